@@ -120,6 +120,34 @@ Section Wait.
       destruct (Nat.lt_ge_cases i (length (s_proms s))) as [Lt|Ge]; [left|right; auto].
       constructor. apply A_map. apply AwaitsF_pending_inv. apply Cov. eapply step_live_old; eauto.
   Qed.
+  (** whatever the outcome (returned, stuck, out of fuel): the state reached is a [wstep] away *)
+  Definition st_of_w (o : outcome (result * st)) : st :=
+    match o with Done (_, s') => s' | Stuck s' => s' | OutOfFuel s' => s' end.
+
+  Lemma wait_loop_wstep cl : forall fuel (f : fut) s,
+    GoodF calm q cl f -> wstep q s (st_of_w (wait_loop sigma fuel f s)).
+  Proof.
+    induction fuel as [|n IH]; intros f s G; destruct f as [r0|c];
+      [simpl; apply wstep_refl|simpl; apply wstep_refl|simpl; apply wstep_refl|].
+    cbn [wait_loop].
+    destruct (idle sigma s) as [s1|] eqn:Ei; [|simpl; apply wstep_refl].
+    destruct (idle_spec q _ _ _ Ei) as (W1 & _ & _).
+    destruct (poll (Pending c) s1) as [f1 s2] eqn:Ep.
+    destruct (poll_good calm q cl _ G s1 f1 s2 Ep) as (S2 & G2 & _).
+    eapply wstep_trans; [exact W1|]. eapply wstep_trans; [apply step_wstep; exact S2|]. apply IH. exact G2.
+  Qed.
+
+  Lemma wait_wstep cl fuel (f : fut) s :
+    GoodF calm q cl f -> wstep q s (st_of_w (wait sigma fuel f s)).
+  Proof.
+    intros G. destruct f as [r0|c]; unfold wait; [simpl; apply wstep_refl|]. cbn [Map].
+    assert (Gm : GoodF calm q cl (Pending (CMap wait_fn c))).
+    { constructor. eapply G_map; [apply GoodF_pending_inv; exact G|].
+      intros r1 s0 R. simpl. split; auto. split; auto using step_refl. }
+    destruct (poll (Pending (CMap wait_fn c)) s) as [f1 s1] eqn:Ep.
+    destruct (poll_good calm q cl _ Gm s f1 s1 Ep) as (S1 & G1 & _).
+    eapply wstep_trans; [apply step_wstep; exact S1|]. apply wait_loop_wstep with (cl := cl). exact G1.
+  Qed.
 End Wait.
 
 (** one root field of a mutation: executeField, catchErrorIfNullable, wait *)
@@ -142,6 +170,19 @@ Proof.
   apply (A2 c i); auto.
   destruct (Nat.lt_ge_cases i (length (s_proms s))) as [Lt|Ge]; auto.
   exfalso. apply (Dead i). eapply step_live_old; eauto.
+Qed.
+
+Lemma root_field_wstep sigma fuel key fp s :
+  wstep [PKey key] s
+    (st_of_w (let '(f, s1) := exec_field fp [PKey key] s in
+              let '(f1, s2) := catch_if_nullable (fp_nn fp) f s1 in
+              wait sigma fuel f1 s2)).
+Proof.
+  destruct (exec_field fp [PKey key] s) as [f s1] eqn:E1.
+  destruct (catch_if_nullable (fp_nn fp) f s1) as [f1 s2] eqn:E2.
+  destruct (exec_field_good false [PKey key] fp [PKey key] s f1 s2) as (S2 & G2 & _).
+  { discriminate. } { apply ext_refl. } { rewrite E1. exact E2. }
+  eapply wstep_trans; [apply step_wstep; exact S2|]. apply wait_wstep with (calm := false) (cl := CNoErr). exact G2.
 Qed.
 
 (** ** The log: executable order predicate against its meaning *)
@@ -337,64 +378,80 @@ Section Serial.
     | Done (RErr e, s3) => Done (Some e, slots, s3)
     | Done (ROk v, s3) =>
         serial_loop sigma fuel tl (upd_nth i (fun _ => Some (key, v)) slots) (S i) p s3
-    | Stuck => Stuck
-    | OutOfFuel => OutOfFuel
+    | Stuck s' => Stuck s'
+    | OutOfFuel s' => OutOfFuel s'
     end.
   Proof.
     simpl. destruct (exec_field fp (PKey key :: p) s) as [f s1].
     destruct (catch_if_nullable (fp_nn fp) f s1) as [f1 s2]. reflexivity.
   Qed.
 
-  Lemma serial_loop_log (strict : bool) : forall l pre slots s early slots' s',
+  Definition st_of_s (o : outcome (option err * list (option (bytes * gval)) * st)) : st :=
+    match o with Done (_, _, s') => s' | Stuck s' => s' | OutOfFuel s' => s' end.
+
+  (** the log of the serial loop, whatever its outcome: a concatenation of per-root segments *)
+  Lemma serial_loop_log (strict : bool) : forall l pre slots s,
     root = pre ++ l ->
     (strict = true -> forallb (fun kf => calm_f (snd kf)) l = true) ->
     (if strict then forall i, ~ live s i else proms_under (length pre) s) ->
-    serial_loop sigma fuel l slots (length pre) [] s = Done (early, slots', s') ->
-    exists evs, s_evs s' = s_evs s ++ evs /\ serial_from strict keys (length pre) evs = true /\
-                (strict = true -> forall i, ~ live s' i).
+    exists evs,
+      s_evs (st_of_s (serial_loop sigma fuel l slots (length pre) [] s)) = s_evs s ++ evs /\
+      serial_from strict keys (length pre) evs = true /\
+      (strict = true -> forall early slots' s',
+         serial_loop sigma fuel l slots (length pre) [] s = Done (early, slots', s') ->
+         forall i, ~ live s' i).
   Proof.
-    induction l as [|[key fp] tl IH]; intros pre slots s early slots' s' Er C Inv E.
-    - simpl in E. injection E as <- <- <-. exists []. rewrite app_nil_r. split; auto. split; auto.
-      intros ->. exact Inv.
-    - rewrite serial_loop_cons in E.
+    induction l as [|[key fp] tl IH]; intros pre slots s Er C Inv.
+    - simpl. exists []. rewrite app_nil_r. split; auto. split; auto.
+      intros -> early slots' s' E. injection E as <- <- <-. exact Inv.
+    - rewrite serial_loop_cons.
       assert (En : nth_error keys (length pre) = Some key).
       { unfold keys. rewrite Er, map_app, nth_error_app2; rewrite map_length; auto.
         rewrite Nat.sub_diag. reflexivity. }
-      destruct (let '(f, s1) := exec_field fp [PKey key] s in
-                let '(f1, s2) := catch_if_nullable (fp_nn fp) f s1 in wait sigma fuel f1 s2)
-        as [[r s3]| |] eqn:Ew; try discriminate.
       assert (Cx : strict = true -> calm_f fp = true).
       { intros c. specialize (C c). simpl in C. apply andb_true_iff in C as [C1 _]. exact C1. }
       assert (Ct : strict = true -> forallb (fun kf => calm_f (snd kf)) tl = true).
       { intros c. specialize (C c). simpl in C. apply andb_true_iff in C as [_ C2]. exact C2. }
-      destruct (root_field_good strict sigma fuel key fp s r s3 Cx Ew) as (W & Dead).
-      destruct (W) as ((evs1 & Ee1 & _) & _).
-      assert (Seg : if strict then Forall (fun e => ev_index keys e = Some (length pre)) evs1
-                    else Forall (fun e => exists i, ev_index keys e = Some i /\ i <= length pre /\
-                                                    (is_fulfil e = false -> i = length pre)) evs1).
-      { destruct strict.
-        - eapply seg_strict; eauto.
-        - eapply seg_weak; eauto. }
-      assert (Inv3 : if strict then forall i, ~ live s3 i else proms_under (S (length pre)) s3).
-      { destruct strict.
-        - apply Dead; auto.
-        - eapply proms_under_step; eauto. }
-      destruct r as [v|e].
-      + assert (Er' : root = (pre ++ [(key, fp)]) ++ tl) by (rewrite <- app_assoc; exact Er).
-        assert (Lp : length (pre ++ [(key, fp)]) = S (length pre)) by (rewrite app_length; simpl; lia).
-        rewrite <- Lp in E, Inv3.
-        destruct (IH _ _ _ _ _ _ Er' Ct Inv3 E) as (evs2 & Ee2 & Ser2 & Dead2). rewrite Lp in Ser2.
-        exists (evs1 ++ evs2). rewrite Ee2, Ee1, app_assoc. split; auto. split; auto.
-        destruct strict.
-        * apply (serial_from_seg_strict keys (length pre)); auto.
-          eapply serial_from_mono; [|exact Ser2]. lia.
-        * apply (serial_from_seg_weak keys (length pre)); auto.
-          eapply serial_from_mono; [|exact Ser2]. lia.
-      + injection E as <- <- <-. exists evs1. split; auto. split.
-        * rewrite <- (app_nil_r evs1). destruct strict.
+      pose proof (root_field_wstep sigma fuel key fp s) as W.
+      destruct (let '(f, s1) := exec_field fp [PKey key] s in
+                let '(f1, s2) := catch_if_nullable (fp_nn fp) f s1 in wait sigma fuel f1 s2)
+        as [[r s3]|s3|s3] eqn:Ew; simpl in W.
+      + (* the wait returned *)
+        destruct (root_field_good strict sigma fuel key fp s r s3 Cx Ew) as (_ & Dead).
+        destruct (W) as ((evs1 & Ee1 & _) & _).
+        assert (Seg : if strict then Forall (fun e => ev_index keys e = Some (length pre)) evs1
+                      else Forall (fun e => exists i, ev_index keys e = Some i /\ i <= length pre /\
+                                                      (is_fulfil e = false -> i = length pre)) evs1).
+        { destruct strict; [eapply seg_strict|eapply seg_weak]; eauto. }
+        assert (Inv3 : if strict then forall i, ~ live s3 i else proms_under (S (length pre)) s3).
+        { destruct strict; [apply Dead; auto|eapply proms_under_step; eauto]. }
+        destruct r as [v|e].
+        * assert (Er' : root = (pre ++ [(key, fp)]) ++ tl) by (rewrite <- app_assoc; exact Er).
+          assert (Lp : length (pre ++ [(key, fp)]) = S (length pre)) by (rewrite app_length; simpl; lia).
+          rewrite <- Lp in Inv3.
+          destruct (IH (pre ++ [(key, fp)]) (upd_nth (length pre) (fun _ => Some (key, v)) slots) s3 Er' Ct Inv3)
+            as (evs2 & Ee2 & Ser2 & Dead2). rewrite Lp in Ee2, Ser2, Dead2.
+          exists (evs1 ++ evs2). rewrite Ee2, Ee1, app_assoc. split; auto. split; auto.
+          destruct strict.
           -- apply (serial_from_seg_strict keys (length pre)); auto.
+             eapply serial_from_mono; [|exact Ser2]. lia.
           -- apply (serial_from_seg_weak keys (length pre)); auto.
-        * intros ->. exact Inv3.
+             eapply serial_from_mono; [|exact Ser2]. lia.
+        * simpl. exists evs1. split; auto. split.
+          -- rewrite <- (app_nil_r evs1). destruct strict.
+             ++ apply (serial_from_seg_strict keys (length pre)); auto.
+             ++ apply (serial_from_seg_weak keys (length pre)); auto.
+          -- intros -> early slots' s' E. injection E as <- <- <-. exact Inv3.
+      + (* stuck while waiting for this root field *)
+        destruct (W) as ((evs1 & Ee1 & _) & _). simpl. exists evs1. split; auto. split; [|discriminate].
+        rewrite <- (app_nil_r evs1). destruct strict.
+        * apply (serial_from_seg_strict keys (length pre)); auto. eapply seg_strict; eauto.
+        * apply (serial_from_seg_weak keys (length pre)); auto. eapply seg_weak; eauto.
+      + (* out of fuel while waiting for this root field *)
+        destruct (W) as ((evs1 & Ee1 & _) & _). simpl. exists evs1. split; auto. split; [|discriminate].
+        rewrite <- (app_nil_r evs1). destruct strict.
+        * apply (serial_from_seg_strict keys (length pre)); auto. eapply seg_strict; eauto.
+        * apply (serial_from_seg_weak keys (length pre)); auto. eapply seg_weak; eauto.
   Qed.
 
   (** the response keys *)
@@ -445,46 +502,58 @@ Lemma run_mutation_inv sigma fuel root r :
     end.
 Proof.
   unfold run, exec_sel_serial. intros E.
-  destruct (serial_loop sigma fuel root (repeat None (length root)) 0 [] st0) as [[[early slots] s']| |];
+  destruct (serial_loop sigma fuel root (repeat None (length root)) 0 [] st0) as [[[early slots] s']|s'|s'];
     try discriminate.
   exists early, slots, s'. split; auto.
   destruct early as [e|]; simpl in E; injection E as <-; simpl; auto.
 Qed.
 
-Theorem mutation_strict_serial sigma fuel root r :
-  NoDup (map fst root) -> calm root = true ->
-  run sigma Mutation fuel root = Done r ->
-  strict_serial (map fst root) (r_events r) = true /\ Forall (fun pr => p_st pr = PRecv) (r_proms r).
+(** the log of a mutation, whether or not the run returned, is the log of its serial loop *)
+Lemma run_mutation_log sigma fuel root :
+  log_of (run sigma Mutation fuel root) =
+  s_evs (st_of_s (serial_loop sigma fuel root (repeat None (length root)) 0 [] st0)).
 Proof.
-  intros Nd C E. destruct (run_mutation_inv _ _ _ _ E) as (early & slots & s' & El & Ee & Ep & _).
-  unfold calm in C. rewrite calm_v_obj in C.
-  destruct (serial_loop_log sigma fuel root Nd true root [] (repeat None (length root)) st0 early slots s' eq_refl (fun _ => C))
-    as (evs & Ev & Ser & Dead); auto.
-  { intros i (pr & En & _). destruct i; discriminate. }
-  rewrite Ee, Ev, Ep. simpl. split; auto. apply not_live_recv. auto.
+  unfold run, exec_sel_serial.
+  destruct (serial_loop sigma fuel root (repeat None (length root)) 0 [] st0) as [[[early slots] s']|s'|s'];
+    try reflexivity.
+  destruct early as [e|]; reflexivity.
 Qed.
 
-Theorem mutation_weak_serial sigma fuel root r :
-  NoDup (map fst root) ->
-  run sigma Mutation fuel root = Done r ->
-  weak_serial (map fst root) (r_events r) = true.
+Theorem mutation_strict_serial sigma fuel root :
+  NoDup (map fst root) -> calm root = true ->
+  strict_serial (map fst root) (log_of (run sigma Mutation fuel root)) = true /\
+  forall r, run sigma Mutation fuel root = Done r -> Forall (fun pr => p_st pr = PRecv) (r_proms r).
 Proof.
-  intros Nd E. destruct (run_mutation_inv _ _ _ _ E) as (early & slots & s' & El & Ee & Ep & _).
-  destruct (serial_loop_log sigma fuel root Nd false root [] (repeat None (length root)) st0 early slots s' eq_refl)
-    as (evs & Ev & Ser & _); auto.
+  intros Nd C. unfold calm in C. rewrite calm_v_obj in C.
+  destruct (serial_loop_log sigma fuel root Nd true root [] (repeat None (length root)) st0 eq_refl (fun _ => C))
+    as (evs & Ev & Ser & Dead).
+  { intros i (pr & En & _). destruct i; discriminate. }
+  split.
+  - rewrite run_mutation_log. simpl in Ev. rewrite Ev. exact Ser.
+  - intros r E. destruct (run_mutation_inv _ _ _ _ E) as (early & slots & s' & El & _ & Ep & _).
+    rewrite Ep. apply not_live_recv. eapply Dead; eauto.
+Qed.
+
+Theorem mutation_weak_serial sigma fuel root :
+  NoDup (map fst root) ->
+  weak_serial (map fst root) (log_of (run sigma Mutation fuel root)) = true.
+Proof.
+  intros Nd.
+  destruct (serial_loop_log sigma fuel root Nd false root [] (repeat None (length root)) st0 eq_refl)
+    as (evs & Ev & Ser & _).
   { discriminate. }
   { constructor. }
-  rewrite Ee, Ev. simpl. exact Ser.
+  rewrite run_mutation_log. simpl in Ev. rewrite Ev. exact Ser.
 Qed.
 
 (** C11, strict form: when no non-null position of the plan fails, every event under an earlier
-    root field precedes every event under a later one, whatever the schedule *)
-Theorem mutation_serial sigma fuel root r :
+    root field precedes every event under a later one — for every scheduler, every fuel, and
+    whether or not the run returns (the log of a stuck or exhausted run is the log so far) *)
+Theorem mutation_serial sigma fuel root :
   NoDup (map fst root) -> excl_abandoned_promise root = false ->
-  run sigma Mutation fuel root = Done r ->
-  Serial (map fst root) (r_events r).
+  Serial (map fst root) (log_of (run sigma Mutation fuel root)).
 Proof.
-  intros Nd X E. apply strict_serial_sound. eapply mutation_strict_serial; eauto.
+  intros Nd X. apply strict_serial_sound. apply mutation_strict_serial; auto.
   unfold excl_abandoned_promise in X. destruct (calm root); auto; discriminate.
 Qed.
 
@@ -500,11 +569,10 @@ Qed.
 
 (** C11 for every plan: no resolver of an earlier root field starts after any event of a later
     one; the only late events are fulfilments of promises *)
-Theorem mutation_serial_starts sigma fuel root r :
+Theorem mutation_serial_starts sigma fuel root :
   NoDup (map fst root) ->
-  run sigma Mutation fuel root = Done r ->
-  SerialStarts (map fst root) (r_events r).
-Proof. intros Nd E. apply weak_serial_sound. eapply mutation_weak_serial; eauto. Qed.
+  SerialStarts (map fst root) (log_of (run sigma Mutation fuel root)).
+Proof. intros Nd. apply weak_serial_sound. apply mutation_weak_serial; auto. Qed.
 
 (** the response lists the root fields in document order *)
 Theorem mutation_key_order sigma fuel root r :
